@@ -2,7 +2,8 @@
 # C09 — which lookup tables a standard-library circuit loads, and what the range table holds
 
 Mirrors `zk_stdlib/src/lib.rs: MidnightCircuit::synthesize` (tables are loaded after the
-relation ran, for the chips that are configured AND were used) and
+relation ran, for the chips that are configured AND were used; the Base64 table whenever the chip
+is configured, because its deactivated lookup is a non-zero table entry) and
 `circuits/src/field/decomposition/pow2range.rs: load_table` (the table lists, for tag 0 and for
 every tag queried during synthesis, all values below `2^tag`). Import-free.
 -/
@@ -23,7 +24,7 @@ def stdlibTables (arch used : Chips) : List String :=
   ["p2r"]
   ++ (if arch.sha256 && used.sha256 then ["sha256"] else [])
   ++ (if arch.sha512 && used.sha512 then ["sha512"] else [])
-  ++ (if arch.base64 && used.base64 then ["base64"] else [])
+  ++ (if arch.base64 then ["base64"] else [])
   ++ (if arch.automaton && used.automaton then ["automaton"] else [])
   ++ (if arch.keccakSha3 && used.keccakSha3 then ["keccak_sha3"] else [])
   ++ (if arch.blake2b && used.blake2b then ["blake2b"] else [])
